@@ -155,6 +155,16 @@ def o63(ctx):
         raise Unsupported("compare_rotations(rotation_type='all') does not return a triple", fn3)
     wants = [true_angle(sym("R1"), sym("R2")), want, got]
     names = ["angular distance", "cone distance", "in-plane distance"]
+    # every value of the rotation_type option returns its own component
+    for k, opt in enumerate(("angular_distance", "cone_distance", "in_plane_distance")):
+        ro = Interp(ctx.prog).run(q3, [Rot(sym("R1")), Rot(sym("R2"))], {"rotation_type": K(opt)})
+        if isinstance(ro.ret, Seq):
+            raise Unsupported(f"compare_rotations(rotation_type={opt!r}) returns a tuple", fn3)
+        vo = tm.equivalent(to_term(ro.ret), wants[k], samplers=RS, n=20, tol=1e-5, seed_tag=q3 + opt)
+        ctx.count(1, {"rotation_type": opt, "equal": bool(vo)})
+        if not vo:
+            ctx.finding(q3, f"rotation_type={opt!r}", f"compare_rotations(rotation_type={opt!r}) must return the {names[k]}", fn3, m3,
+                        witness=vo.witness)
     for k in range(3):
         vk = tm.equivalent(to_term(r.ret.items[k]), wants[k], samplers=RS, n=20, tol=1e-5, seed_tag=q3 + str(k))
         ctx.count(1)
